@@ -14,7 +14,7 @@ from ..runner import Obligation, Result
 
 P = "C01"
 ASSUMPTIONS = [
-    "events are created after Simulation(...) is constructed (documented usage); each SimFuture is awaited by at most one process",
+    "events are created after Simulation(...) is constructed (documented usage); at most one process is parked on a SimFuture at a time (an already resolved future may be yielded again)",
     "an event later than end_time is not live: deliveries with time > end_time are ignored by the oracle (both loops deliver one such event)",
     "with no end_time the accepted stop points are: no live non-daemon event pending (strict) ... no non-daemon heap entry pending, cancelled or not (lazy deletion)",
     "when one resolve() wakes several processes, or any_of sees several pre-resolved inputs, their relative order is unspecified: only the validity invariants are judged for such programs",
